@@ -278,7 +278,14 @@ type lcOrigin struct {
 }
 
 func newLcOrigin() *lcOrigin {
-	ln, err := net.Listen("tcp", "127.0.0.1:0")
+	var ln net.Listener
+	var err error
+	for try := 0; try < 100; try++ { // (tens of thousands of scenarios: the machine can be out of ports for a moment)
+		if ln, err = net.Listen("tcp", "127.0.0.1:0"); err == nil {
+			break
+		}
+		time.Sleep(100 * time.Millisecond)
+	}
 	if err != nil {
 		return nil
 	}
@@ -474,6 +481,10 @@ func runLifecycleScenario(sc *lcScenario, emitEv func(M)) {
 	}
 	emitEv(M{"ev": "reset", "sc": sc.Sc, "cfgId": sc.CfgId})
 	origin := newLcOrigin()
+	if origin == nil {
+		emitEv(M{"ev": "inconclusive", "sc": sc.Sc, "why": "no listening socket for the stub origin"})
+		return
+	}
 	defer origin.close()
 	inconclusive := false
 	lastStep := time.Now()
